@@ -357,6 +357,22 @@ theorem C04_attr_visible_iff_reach (s : Schema) (fuel : Nat) (e : Entity) (an : 
     | true => simpa using this
     | false => simpa using this
 
+/-- **`ENTITYget_named_attribute` answers unless the supertypes are cyclic** (with the fuel the passes give it): no answer means
+    some entity reachable from `en` through `SUBTYPE OF` is its own ancestor — the situation SUBSUPER_LOOP reports -/
+theorem C04_self_attr_lookup_terminates (s : Schema) (an : String) (en : String)
+    (h : namedAttr s an (s.decls.length + 1) en = none) :
+    ∃ y, Reach (superGraph s) en y ∧ Reach (superGraph s) y y := by
+  apply namedAttr_none_cycle s an _ en _ h
+  have : s.entities.length ≤ s.decls.length := List.length_filterMap_le _ _
+  omega
+
+/-- hence, on a schema whose supertype graph has no cycle below `e`, the condition `AttrVisible` of `FileWF` IS reachability: `SELF.a`
+    (and an unqualified UNIQUE / INVERSE reference) is accepted ⇔ `e` or an entity reachable from it through `SUBTYPE OF` declares `a` -/
+theorem C04_attr_visible_iff_reach_acyclic (s : Schema) (e : Entity) (an : String)
+    (hacyc : ¬ ∃ y, Reach (superGraph s) e.name y ∧ Reach (superGraph s) y y) :
+    AttrVisible s (s.decls.length + 1) e an ↔ ∃ x, ReachRefl (superGraph s) e.name x ∧ ownsAttr s an x = true :=
+  C04_attr_visible_iff_reach s _ e an (fun hn => hacyc (C04_self_attr_lookup_terminates s an e.name hn))
+
 /-- **overloaded attribute, stated without the look-up function**: `ENTITYresolve_expressions` reports OVERLOADED_ATTR for `e` ⇔ some new
     (not redeclared) attribute of `e` has a second declaration in a direct supertype or in an entity reachable from one through
     `SUBTYPE OF` — two distinct reachable declarations of one name.  (The look-up is the marked search the code uses since C06-17; it
